@@ -233,7 +233,7 @@ class Engine:
         self.cur_func = ""
         self.loop_specs: dict = {}
         self.max_depth = 40
-        self.check_timeout_ms = 3000
+        self.check_timeout_ms = 6000
         self.inlined: set = set()
         self.contract_used: set = set()
         self.opaque_hook = None  # callable(engine, st, fterm, args, kwargs) -> generator or None
@@ -241,6 +241,7 @@ class Engine:
         self.shared_fields: dict = {}  # field -> spec (monitor-owned)
         self.stats = {"paths": 0, "feas_checks": 0}
         self.ignored_calls: set = set()  # ids of callables whose calls (and argument evaluation) are skipped
+        self.const_describers: list = []  # fn(eng, st, obj, term): facts about concrete objects that get lifted
         from . import models
 
         models.install(self)
@@ -296,12 +297,13 @@ class Engine:
         while True:
             self.stats["feas_checks"] += 1
             r = s.check()
+            if r == z3.unknown:
+                s.set("timeout", 10 * self.check_timeout_ms)  # a loaded machine must not change the case split
+                r = s.check()
             if r == z3.unsat:
                 break
             if r != z3.sat:
-                # unknown: keep every tag not excluded so far
-                out.extend(t for t in V.TAGS if t not in out)
-                break
+                raise Unsupported(f"cannot enumerate the possible types of {term} (solver: unknown)")
             mv = s.model().eval(term, model_completion=True)
             tag = mv.decl().name()
             out.append(tag)
@@ -346,9 +348,16 @@ class Engine:
             return self._const_obj("flt", v)
         if isinstance(v, tuple):
             return self.alloc_seq(st, tuple, [self.lift(x, st) for x in v])
-        if isinstance(v, (Closure, BoundMethod, Model)) or callable(v) or isinstance(v, type):
+        if isinstance(v, (Closure, BoundMethod, Model, type, types.FunctionType, types.BuiltinFunctionType, types.MethodType)):
             return self._const_obj("obj", v)
-        return self._const_obj("obj", v)
+        t = self._const_obj("obj", v)
+        # a concrete object of a class the run knows about: its class is a fact, and packs may describe
+        # (part of) its content - e.g. that lmap.EMPTY wraps an empty map
+        if type(v) in self.class_ids:
+            st.assume(V.cls_of(V.Val.a(t)) == self.class_ids[type(v)])
+        for describe in self.const_describers:
+            describe(self, st, v, t)
+        return t
 
     def _int_seq(self, ints):
         if not ints:
